@@ -47,6 +47,31 @@ func c11World(tp *Tape, env *Env) (*Plan, *Violation) {
 		env.St.probe("world_with_failing_jumps")
 	}
 	g.ensureYieldingCycles(prog)
+	if tp.Chance(30, "passthrough") {
+		// pass-through nodes: the node's FIRST statement is its jump onward (no entry probe in front of it: the
+		// passage is logged by the destination expression itself), so chains A -> P -> B resolve inside one call
+		var jumps []*Stmt
+		for _, n := range prog.Nodes {
+			walkStmts(n.Body, func(s *Stmt) {
+				if s.K == sJump && s.Target != "Nowhere" {
+					jumps = append(jumps, s)
+				}
+			})
+		}
+		np := tp.Int(1, 3, "npass")
+		for k := 0; k < np && len(jumps) > 0; k++ {
+			j := jumps[tp.Int(0, len(jumps)-1, "passjump")]
+			title := fmt.Sprintf("Pass%d", k)
+			pn := &Node{Title: title}
+			if tp.Chance(20, "passnever") {
+				pn.Tracking = "never"
+			}
+			pn.Body = []*Stmt{{K: sJumpE, E: &Expr{K: eCall, S: "via", A: []*Expr{{K: eStr, S: title}, {K: eStr, S: j.Target}}}}}
+			j.Target = title
+			prog.Nodes = append(prog.Nodes, pn)
+		}
+		env.St.probe("world_with_pass_through_nodes")
+	}
 	layout := genLayout(tp)
 	w := World{Readers: distribute(tp, prog, layout, 2)}
 	w.Host = HostSpec{Storer: []string{"rec", "mem", "default"}[tp.Int(0, 2, "storer")], Probes: true, Seed: "s1"}
@@ -88,6 +113,13 @@ func c11Names(p *Program) []string {
 func c11Exec(plan *Plan, st *Stats) *Violation {
 	prog := plan.Program
 	names := c11Names(prog)
+	// the counter lines were written before the pass-through nodes were added: they show every other name
+	var lineNames []string
+	for _, n := range names {
+		if !strings.HasPrefix(n, "Pass") {
+			lineNames = append(lineNames, n)
+		}
+	}
 	never := map[string]bool{}
 	isNode := map[string]bool{}
 	for _, n := range prog.Nodes {
@@ -157,16 +189,38 @@ func c11Exec(plan *Plan, st *Stats) *Violation {
 			continue
 		}
 		if r.Kind == rPanic {
+			if st != nil {
+				st.inc("cut.panic", 1)
+			}
 			return nil // not this property's business
 		}
 		if r.Kind == rError && !strings.Contains(r.Err, "not found in dialogue") {
+			if st != nil {
+				st.inc("cut.unexpected_error", 1)
+				st.sample(map[string]any{"unexpected_error": r.Err})
+			}
 			return nil // only the deliberate jumps to unknown nodes may fail in these worlds
 		}
 		for _, e := range d.h.eventsFrom(ev0) {
-			if !strings.HasPrefix(e, `fn enter(s:"`) {
+			var name string
+			var uerr error
+			switch {
+			case strings.HasPrefix(e, `fn enter(s:"`):
+				name, uerr = strconv.Unquote(e[len("fn enter(s:") : len(e)-1])
+			case strings.HasPrefix(e, `fn via(s:"`):
+				// a pass-through node announces itself in the destination expression of its only statement
+				rest := e[len("fn via(s:"):]
+				if q, err := strconv.QuotedPrefix(rest); err == nil {
+					name, uerr = strconv.Unquote(q)
+					if st != nil {
+						st.probe("pass_through_node_traversed")
+					}
+				} else {
+					uerr = err
+				}
+			default:
 				continue
 			}
-			name, uerr := strconv.Unquote(e[len("fn enter(s:") : len(e)-1])
 			if uerr != nil {
 				continue
 			}
@@ -205,11 +259,11 @@ func c11Exec(plan *Plan, st *Stats) *Violation {
 		}
 		for _, text := range texts {
 			toks := strings.Fields(text)
-			if len(toks) < len(names) {
+			if len(toks) < len(lineNames) {
 				continue
 			}
-			toks = toks[len(toks)-len(names):]
-			for k, name := range names {
+			toks = toks[len(toks)-len(lineNames):]
+			for k, name := range lineNames {
 				parts := strings.Split(toks[k], ",")
 				if len(parts) != 2 {
 					return nil // not a counter line (text assumption broken): C01/C04's business
